@@ -150,13 +150,14 @@ def gen_schema(rng, options=None):
 			# the size member: builtin integer, alias or enum typed (the validator only asks that the member exists), declared here or
 			# arriving through an inlined header
 			if rng.random() < 0.25:
-				# a header of its own per holder: extend_models attaches the extensions to the member OBJECTS, which an unnamed inline
-				# shares between all structs that inline the header - a header shared by two holders would have its size member bound
-				# to whichever holder was processed last
-				header_name = f'CountHeader{chr(65 + index)}x'
-				if not any(f'inline {header_name}' in line for line in body):
+				# a header of its own, or one header shared by several holders: an unnamed inline shares the member OBJECTS between all
+				# structs that inline it, and every holder's size member must still be bound to the holder's own array (extend_models
+				# bound a shared header's member to whichever holder was processed last: repaired in /repo, 98e33f939)
+				if not any('inline CountHeader' in line for line in body):
+					header_name = 'CountHeaderSx' if rng.random() < 0.5 else f'CountHeader{chr(65 + index)}x'
 					body.insert(0, f'\tinline {header_name}')
-					blocks.append(('factory', header_name, '\n'.join([f'inline struct {header_name}', '\thcount = Count', '\thsize = ByteSize', '\thplain = uint8'])))
+					if not any(header_name == block[1] for block in blocks):
+						blocks.append(('factory', header_name, '\n'.join([f'inline struct {header_name}', '\thcount = Count', '\thsize = ByteSize', '\thplain = uint8'])))
 				count = rng.choice(['hcount', 'hsize', 'hplain'])
 			else:
 				body.append(f'\t{count} = {rng.choice(SIZE_MEMBER_TYPES)}')
@@ -281,6 +282,10 @@ def set_order(models):
 	return [str(name) for name in names]
 
 
+def member_position(model, member):
+	return next((index for index, item in enumerate(model.fields) if item is member), -1)
+
+
 def observed_extensions(models):
 	result = {}
 	for model in models:
@@ -293,8 +298,9 @@ def observed_extensions(models):
 				rows = None
 				break
 			type_model = None if extensions.type_model is field else str(extensions.type_model.name)
-			bound = None if extensions.bound_field is None else next(index for index, item in enumerate(model.fields) if item is extensions.bound_field)
-			sizes = [next(index for index, item in enumerate(model.fields) if item is size_field) for size_field in extensions.size_fields]
+			# position within THIS struct; -1: the object is not one of the struct's own members (checked as a clause by the caller)
+			bound = None if extensions.bound_field is None else member_position(model, extensions.bound_field)
+			sizes = [member_position(model, size_field) for size_field in extensions.size_fields]
 			rows.append([type_model, bool(extensions.printer[2]), bool(extensions.is_contents_abstract), bound, sizes])
 		result[str(model.name)] = rows
 	return result
@@ -458,6 +464,14 @@ class Checker:
 			return
 		extensions = observed_extensions(models)
 		marks = unaligned_names(models)
+		for name, rows in extensions.items():
+			for index, row in enumerate(rows or []):
+				if -1 == row[3] or -1 in row[4]:
+					member = next(model for model in models if is_struct(model) and name == str(model.name)).fields[index]
+					ctx.fail('property', (
+						f'{name}.{member.name} is bound to a member that is not a member of {name} '
+						f'(bound_field {getattr(member.extensions.bound_field, "name", None)}, size_fields {[item.name for item in member.extensions.size_fields]})'), case)
+					return
 		if model_answer is not None:
 			if model_answer['exts'] != json.loads(json.dumps(extensions)):
 				name = next(key for key in extensions if model_answer['exts'].get(key) != json.loads(json.dumps(extensions[key])))
